@@ -645,3 +645,73 @@ func ReturnValues(ret *ssa.Return) []ssa.Value {
 	}
 	return out
 }
+
+// LoopBlocksList is LoopBlocks as a slice ordered by block index.
+func LoopBlocksList(b *ssa.BasicBlock) []*ssa.BasicBlock {
+	m := LoopBlocks(b)
+	var out []*ssa.BasicBlock
+	if b.Parent() == nil {
+		return out
+	}
+	for _, x := range b.Parent().Blocks {
+		if m[x] {
+			out = append(out, x)
+		}
+	}
+	return out
+}
+
+// NaturalLoop returns the natural loop of header h: h plus every block that can
+// reach a back-edge source of h without passing through h. Empty when h has no
+// back edge.
+func NaturalLoop(h *ssa.BasicBlock) map[*ssa.BasicBlock]bool {
+	loop := map[*ssa.BasicBlock]bool{}
+	var work []*ssa.BasicBlock
+	for _, p := range h.Preds {
+		if h.Dominates(p) {
+			work = append(work, p)
+		}
+	}
+	if len(work) == 0 {
+		return loop
+	}
+	loop[h] = true
+	for len(work) > 0 {
+		x := work[len(work)-1]
+		work = work[:len(work)-1]
+		if loop[x] {
+			continue
+		}
+		loop[x] = true
+		work = append(work, x.Preds...)
+	}
+	return loop
+}
+
+// Unspill resolves a load of a local cell that is stored exactly once (a variable
+// captured by a closure or spilled because of defer) to the stored value.
+func Unspill(v ssa.Value) ssa.Value {
+	for i := 0; i < 4; i++ {
+		u, ok := v.(*ssa.UnOp)
+		if !ok || u.Op != token.MUL {
+			return v
+		}
+		al, ok := u.X.(*ssa.Alloc)
+		if !ok {
+			return v
+		}
+		var st *ssa.Store
+		n := 0
+		for _, r := range *al.Referrers() {
+			if s, ok := r.(*ssa.Store); ok && s.Addr == ssa.Value(al) {
+				st = s
+				n++
+			}
+		}
+		if n != 1 {
+			return v
+		}
+		v = st.Val
+	}
+	return v
+}
